@@ -27,6 +27,9 @@ RULE = ("convexhull_mask: (1) integer-lattice clouds of 3..15 points (collinear 
         "every third lattice cloud has int64/int32 coordinates; the model always sees the logical C-order sequence. About 40% of the mask "
         "cases (all streams; array and grid form) carry one or two EXTRA coordinate arrays on the data (non-coplanar heights) and / or the query "
         "(constant or varying): the mask must be the two-coordinate mask; 30% of the project_grid inputs carry an extra 2-D coordinate. "
+        "(4b) convexhull_mask(projection=...) in array and grid form with a logging projection: integer-linear non-separable maps "
+        "(Pythagorean rotations, shears, exact, re-computed in Coq) on lattice clouds, and a polar azimuthal projection of lon/lat sectors with "
+        "queries outside the data's lon/lat bounding box but inside the projected hull and vice versa (compared away from the hull boundary). "
         "project_grid: 5x6..8x9 grids with 0..4 scattered NaN holes (incl. corners) and/or NaN holes blanking one or two COMPLETE rows and columns (edge and interior), names foo/None/custom, projections axis-aligned affine (dyadic "
         "coefficients, incl. negative scales and offsets up to 1e6), separable monotone cubic and Mercator-like, non-separable quadratic and "
         "rotation; methods linear/nearest/cubic x antialias on/off x arguments none/shape/spacing/region(+shape|spacing); the projection "
@@ -180,6 +183,107 @@ def mask_case(vd, dx, dy, qx, qy, kind, rnd=None, dtype=float):
         repro = "# extra coordinates appended to the tuples: %r\n" % (exd,) + repro
     return Case({"fn": "convexhull_mask", "data": [dx.tolist(), dy.tolist()], "query": [qx.tolist(), qy.tolist()], "layouts": lay,
                  "dtype": np.dtype(dtype).name, "extras": exd}, o, term, repro, kind)
+
+
+def mask_proj_case(vd, dx, dy, qx, qy, proj, kind, lin=None, grid=None, dims=("northing", "easting")):
+    """convexhull_mask(..., projection=proj): array form (query arrays qx, qy) or, with grid=(east, north), grid form
+    (query = meshgrid of the grid's own vectors).  The wrapped callable logs its inputs and outputs; the expectation is
+    the hull test on the projected points it returned."""
+    import xarray as xr
+    dx, dy = np.asarray(dx, dtype=float), np.asarray(dy, dtype=float)
+    proj.calls = []
+    inp = {"fn": "convexhull_mask-projection", "projection": proj.name, "data": [dx.tolist(), dy.tolist()]}
+    try:
+        if grid is None:
+            qx, qy = np.asarray(qx, dtype=float), np.asarray(qy, dtype=float)
+            inp["query"] = [qx.tolist(), qy.tolist()]
+            obs = vd.convexhull_mask((dx, dy), coordinates=(qx, qy), projection=proj)
+            o = np.asarray(obs).ravel(order="C") if (obs.shape == qx.shape and obs.dtype == bool) else np.zeros(0, dtype=bool)
+        else:
+            east, north = [np.asarray(a, dtype=float) for a in grid]
+            inp.update({"easting": east.tolist(), "northing": north.tolist(), "dims": list(dims), "form": "grid"})
+            qx, qy = np.meshgrid(east, north)
+            vals = np.arange(1.0, east.size * north.size + 1).reshape(north.size, east.size)
+            ds = xr.Dataset({"scalars": (list(dims), vals)}, coords={dims[1]: east, dims[0]: north})
+            out = vd.convexhull_mask((dx, dy), grid=ds, projection=proj)
+            ov = out["scalars"].values
+            o = (~np.isnan(ov)).ravel(order="C") if ov.shape == vals.shape else np.zeros(0, dtype=bool)
+    except Exception as ex:
+        return raised_case(inp, ex, kind, "# projection: %s" % proj.name)
+    calls = proj.calls
+    if len(calls) == 2:
+        (ldx, ldy, pdx, pdy), (lqx, lqy, pqx, pqy) = [[np.ravel(a) for a in c] for c in calls]
+    else:       # the projection must be called once for the data and once for the query points
+        ldx = ldy = pdx = pdy = lqx = lqy = pqx = pqy = np.zeros(0)
+    term = "c16_mask_proj %s %s %s %s %s %s %s %s %s %s %s %s %s %s" % (
+        copt(lin, lambda l: "(%s, %s, %s, %s)" % tuple(cD(x) for x in l)),
+        dl(dx.ravel()), dl(dy.ravel()), dl(np.ravel(qx)), dl(np.ravel(qy)), dl(ldx), dl(ldy), dl(lqx), dl(lqy),
+        dl(pdx), dl(pdy), dl(pqx), dl(pqy), bl(o))
+    repro = ("# projection: %s\nimport verde, numpy as np; print(verde.convexhull_mask((np.array(%r), np.array(%r)), "
+             "coordinates=(np.array(%r), np.array(%r)), projection=<projection>))"
+             % (proj.name, dx.tolist(), dy.tolist(), np.asarray(qx).tolist(), np.asarray(qy).tolist()))
+    return Case(inp, {"mask": [bool(b) for b in o], "projection_calls": len(calls)}, term, repro, kind)
+
+
+def polar_projection():
+    """azimuthal equidistant about the pole: x = r sin(lon), y = -r cos(lon), r = 90 - lat (degrees)"""
+    def f(lon, lat):
+        r = 90.0 - lat
+        return r * np.sin(np.radians(lon)), -r * np.cos(np.radians(lon))
+    return Projection("polar-azimuthal", f)
+
+
+LINEAR_MAPS = {       # exact on the quarter lattice: rotations by Pythagorean angles (times 5 / 13), integer shears
+    "rotation-3-4": (3.0, -4.0, 4.0, 3.0),
+    "rotation-5-12": (5.0, -12.0, 12.0, 5.0),
+    "shear-x": (1.0, 2.0, 0.0, 1.0),
+    "shear-y-reflect": (1.0, 0.0, -3.0, -1.0),
+}
+
+
+def linear_projection(name):
+    a, b, c, d = LINEAR_MAPS[name]
+    return Projection(name, lambda e, n: (a * e + b * n, c * e + d * n)), (a, b, c, d)
+
+
+def projected_mask_cases(vd, rnd, count):
+    out = []
+    for i in range(count):
+        # (a) exact stream: lattice cloud, integer-linear non-separable map, array and grid form
+        nm = rnd.choice(sorted(LINEAR_MAPS))
+        proj, lin = linear_projection(nm)
+        pts = lattice_cloud(rnd, rnd.randint(3, 12))
+        qs = lattice_queries(rnd, pts, rnd.choice([20, 24, 30]))
+        px, py = [p[0] for p in pts], [p[1] for p in pts]
+        out.append(mask_proj_case(vd, px, py, np.array([q[0] for q in qs]).reshape(2, -1), np.array([q[1] for q in qs]).reshape(2, -1),
+                                  proj, "mask-projected", lin=lin))
+        nx = rnd.randint(3, 7)
+        ny = rnd.choice([m for m in range(3, 8) if m != nx])
+        east = styled_axis(rnd, rnd.randint(-4, 4) / 4, rnd.choice([1.0, 1.5]), nx, rnd.choice(AXIS_STYLES))
+        north = styled_axis(rnd, rnd.randint(-4, 4) / 4, rnd.choice([1.0, 1.25]), ny, rnd.choice(AXIS_STYLES))
+        out.append(mask_proj_case(vd, px, py, None, None, linear_projection(nm)[0], "mask-projected", lin=lin, grid=(east, north),
+                                  dims=rnd.choice([("northing", "easting"), ("lat", "lon")])))
+        # (b) curved stream: polar projection of a lon/lat sector; queries outside the lon/lat bounding box of the data
+        #     whose projection is inside the projected hull (poleward of the sector, around the central meridian),
+        #     queries inside the box but outside the projected hull (between two data points of the outer arc), random ones
+        lon0 = rnd.choice([0.0, 20.0, -35.0])
+        half = rnd.choice([40.0, 60.0, 75.0])
+        lat_s, lat_n = rnd.choice([(60.0, 80.0), (50.0, 70.0), (65.0, 85.0)])
+        m = rnd.randint(6, 14)
+        dlon = [lon0 - half, lon0 + half, lon0 - half, lon0 + half] + [lon0 + rnd.uniform(-half, half) for _ in range(m)]
+        dlat = [lat_s, lat_s, lat_n, lat_n] + [rnd.uniform(lat_s, lat_n) for _ in range(m)]
+        top = min(89.0, lat_n + 0.6 * (90.0 - lat_n))
+        qlon = [lon0, lon0 + 5.0, lon0 - 8.0] + [lon0 + rnd.uniform(-0.3, 0.3) * half for _ in range(5)]
+        qlat = [lat_n + 0.5 * (top - lat_n), top, lat_n + 1.0] + [rnd.uniform(lat_n + 0.2, top) for _ in range(5)]
+        qlon += [lon0, lon0 + 0.1 * half] + [lon0 + rnd.uniform(-1.2, 1.2) * half for _ in range(16)]
+        qlat += [lat_s + 0.2, lat_s + 0.5] + [rnd.uniform(lat_s - 5, min(89.5, lat_n + 8)) for _ in range(16)]
+        out.append(mask_proj_case(vd, dlon, dlat, np.array(qlon).reshape(2, -1), np.array(qlat).reshape(2, -1), polar_projection(),
+                                  "mask-projected-polar"))
+        glon = lon0 + np.linspace(-1.1, 1.1, rnd.choice([5, 6, 8])) * half
+        glat = np.linspace(lat_s - 3.0, min(89.0, lat_n + 7.0), rnd.choice([7, 9]))[::-1].copy()     # raster orientation
+        out.append(mask_proj_case(vd, dlon, dlat, None, None, polar_projection(), "mask-projected-polar", grid=(glon, glat),
+                                  dims=("latitude", "longitude")))
+    return out
 
 
 def lattice_cloud(rnd, n, size=8):
@@ -621,6 +725,8 @@ def generate(tier, seed):
             dxs, east, dys, north = sx * dxs + ox, sx * east + ox, sy * dys + oy, sy * north + oy
         dims = rnd.choice([("northing", "easting"), ("lat", "lon"), ("y", "x")])
         cases.append(mask_forms_case(vd, dxs, dys, east, north, dims, "mask-forms", rnd=rnd))
+    # (4b) convexhull_mask with a projection: the mask is the hull test on the PROJECTED points
+    cases += projected_mask_cases(vd, rnd, 6 if quick else 60)
     # (5) project_grid
     argkinds = ["none", "none", "shape", "spacing", "region", "region+shape", "region+spacing"]
     combos = [(m, aa) for m in ("linear", "nearest", "cubic") for aa in (False, True)]
